@@ -1419,8 +1419,11 @@ func main() {
 	wireSites := scanWireSites(*repo)
 
 	// ---- emit ------------------------------------------------------------------------------------------
+	// Every text is one number: 0x01 followed by its UTF-8 bytes (the Lean kernel evaluates String
+	// operations very slowly, and long lists of numerals elaborate slowly); the text itself is shown in a
+	// line comment before its number.
 	var sb strings.Builder
-	q := func(s string) string { return leanStr(s) }
+	q := func(s string) string { return fmt.Sprint(intern(s)) }
 	optNat := func(i int) string {
 		if i < 0 {
 			return "none"
@@ -1436,10 +1439,15 @@ func main() {
 	}
 	sb.WriteString("/- GENERATED by harness/cmd/trans-appwire (translator T-appwire, C01). Do not edit, not committed.\n")
 	sb.WriteString("Source: packages app, core/consensus, cluster (go/packages, type-checked). See the header of\n")
-	sb.WriteString("harness/cmd/trans-appwire/main.go for what is listed and how texts are normalised. -/\n")
+	sb.WriteString("harness/cmd/trans-appwire/main.go for what is listed and how texts are normalised.\n")
+	sb.WriteString("Every text is interned in `strs` as one number, 0x01 followed by its UTF-8 bytes (the text is in the comment before it);\n")
+	sb.WriteString("all other tables refer to texts by their index in `strs`. -/\n")
 	sb.WriteString("namespace CharonV.Generated.AppWire\n\n")
-	sb.WriteString(`/-- one argument of a listed call: text and static type (ids into `+"`strs`"+`), the variable it is rooted at
-(`+"`isVar`"+`: it is exactly that variable), the listed call it is. -/
+	sb.WriteString(`/-- a text: the number whose base-256 digits are 1 followed by the UTF-8 bytes of the text. -/
+abbrev Txt := Nat
+
+/-- one argument of a listed call: text and static type, the variable it is rooted at (index into `+"`vars`"+`;
+`+"`isVar`"+`: it is exactly that variable), the listed call it is (index into `+"`calls`"+`). -/
 structure Arg where
   expr  : Nat
   ty    : Nat
@@ -1448,16 +1456,19 @@ structure Arg where
   call  : Option Nat
 deriving Repr
 
+/-- a listed call: enclosing function, package and name of the called function, enclosing constructs
+(outermost first), arguments, whether the last argument is passed as `+"`xs...`"+`. -/
 structure Call where
-  fn     : String
-  pkg    : String
-  name   : String
+  fn     : Nat
+  pkg    : Nat
+  name   : Nat
   path   : List Nat
   args   : List Arg
   spread : Bool
 deriving Repr
 
-/-- one assignment to a variable. -/
+/-- one assignment to a variable: enclosing constructs, right-hand side, index of the result taken from a
+multi-valued right-hand side, the listed call the right-hand side is, the full name of the function it calls. -/
 structure Def where
   path   : List Nat
   rhs    : Nat
@@ -1467,14 +1478,15 @@ structure Def where
 deriving Repr
 
 structure Var where
-  fn   : String
-  name : String
+  fn   : Nat
+  name : Nat
   ty   : Nat
-  kind : String
+  kind : Nat
   defs : List Def
   addrTaken : Bool
 deriving Repr
 
+/-- `+"`v.f = e`, `v[k] = e`"+` (table `+"`writes`"+`) or `+"`y := v`, `y = &v`, `y := *v`"+` (table `+"`aliases`"+`, `+"`lhs`"+` is y). -/
 structure Write where
   var    : Nat
   path   : List Nat
@@ -1490,8 +1502,6 @@ structure Use where
 deriving Repr
 
 `)
-	sb.WriteString("def strs : List String := [\n")
-	// strs is complete only after everything is interned: emit tables into a second buffer first
 	var tb strings.Builder
 	tb.WriteString("def calls : List Call := [\n")
 	for i, c := range calls {
@@ -1499,7 +1509,7 @@ deriving Repr
 		for _, a := range c.args {
 			as = append(as, fmt.Sprintf("⟨%d, %d, %s, %s, %s⟩", a.expr, a.ty, optNat(a.root), leanBool(a.isVar), optNat(a.call)))
 		}
-		fmt.Fprintf(&tb, "  /- %d -/ ⟨%s, %s, %s, %s, [%s], %s⟩%s\n", i, q(c.fn), q(c.pkg), q(c.name), natList(c.path),
+		fmt.Fprintf(&tb, "  -- %d: in %s: %s.%s\n  ⟨%s, %s, %s, %s, [%s], %s⟩%s\n", i, c.fn, c.pkg, c.name, q(c.fn), q(c.pkg), q(c.name), natList(c.path),
 			strings.Join(as, ", "), leanBool(c.spread), sep(i, len(calls)))
 	}
 	tb.WriteString("]\n\n")
@@ -1509,7 +1519,7 @@ deriving Repr
 		for _, d := range v.defs {
 			ds = append(ds, fmt.Sprintf("⟨%s, %d, %d, %s, %d⟩", natList(d.path), d.rhs, d.res, optNat(d.call), d.callee))
 		}
-		fmt.Fprintf(&tb, "  /- %d -/ ⟨%s, %s, %d, %s, [%s], %s⟩%s\n", i, q(v.fn), q(v.name), v.ty, q(v.kind),
+		fmt.Fprintf(&tb, "  -- %d: %s in %s\n  ⟨%s, %s, %d, %s, [%s], %s⟩%s\n", i, v.name, v.fn, q(v.fn), q(v.name), v.ty, q(v.kind),
 			strings.Join(ds, ", "), leanBool(v.addr), sep(i, len(vars)))
 	}
 	tb.WriteString("]\n\n")
@@ -1518,7 +1528,6 @@ deriving Repr
 		fmt.Fprintf(&tb, "  ⟨%d, %s, %d, %d, %s⟩%s\n", w.v, natList(w.path), w.lhs, w.rhs, optNat(w.rhsVar), sep(i, len(writeRows)))
 	}
 	tb.WriteString("]\n\n")
-	tb.WriteString("/-- `y := x`, `y = &x`, `y := *x`: another name for (or a copy of) variable `var`; `lhs` is y, `rhs` the right-hand side. -/\n")
 	tb.WriteString("def aliases : List Write := [\n")
 	for i, w := range aliasRows {
 		fmt.Fprintf(&tb, "  ⟨%d, %s, %d, %d, %s⟩%s\n", w.v, natList(w.path), w.lhs, w.rhs, optNat(w.rhsVar), sep(i, len(aliasRows)))
@@ -1530,21 +1539,28 @@ deriving Repr
 	}
 	tb.WriteString("]\n\n")
 	tb.WriteString("/-- non-error returns of the functions that contain a listed call: (function, path, text). -/\n")
-	tb.WriteString("def plainReturns : List (String × List Nat × Nat) := [\n")
+	tb.WriteString("def plainReturns : List (Nat × List Nat × Nat) := [\n")
 	for i, r := range rets {
 		fmt.Fprintf(&tb, "  (%s, %s, %d)%s\n", q(r.fn), natList(r.path), r.txt, sep(i, len(rets)))
 	}
 	tb.WriteString("]\n\n")
 	tb.WriteString("/-- parameters of `core.Wire`: (name, type). -/\n")
-	tb.WriteString("def wireParams : List (String × String) := [\n")
+	tb.WriteString("def wireParams : List (Nat × Nat) := [\n")
 	for i, w := range wireParams {
 		fmt.Fprintf(&tb, "  (%s, %s)%s\n", q(w[0]), q(w[1]), sep(i, len(wireParams)))
 	}
 	tb.WriteString("]\n\n")
 	tb.WriteString("/-- non-test Go files of the repository that refer to `core.Wire`. -/\n")
-	tb.WriteString("def wireSites : List String := [" + quoteList(wireSites) + "]\n\n")
+	{
+		ids := make([]int, len(wireSites))
+		for i, w := range wireSites {
+			ids[i] = intern(w)
+		}
+		tb.WriteString("def wireSites : List Nat := " + natList(ids) + "\n\n")
+	}
+	sb.WriteString("def strs : List Txt := [\n")
 	for i, s := range strTable {
-		fmt.Fprintf(&sb, "  /- %d -/ %s%s\n", i, q(s), sep(i, len(strTable)))
+		fmt.Fprintf(&sb, "  -- %d: %s\n  0x1%x%s\n", i, strings.ReplaceAll(s, "\n", " "), []byte(s), sep(i, len(strTable)))
 	}
 	sb.WriteString("]\n\n")
 	sb.WriteString(tb.String())
@@ -1712,37 +1728,6 @@ func leanBool(b bool) string {
 		return "true"
 	}
 	return "false"
-}
-
-func leanStr(s string) string {
-	var b strings.Builder
-	b.WriteByte('"')
-	for _, r := range s {
-		switch {
-		case r == '"':
-			b.WriteString(`\"`)
-		case r == '\\':
-			b.WriteString(`\\`)
-		case r == '\n':
-			b.WriteString(`\n`)
-		case r == '\t':
-			b.WriteString(`\t`)
-		case r < 0x20 || r == 0x7f:
-			fmt.Fprintf(&b, `\x%02x`, r)
-		default:
-			b.WriteRune(r)
-		}
-	}
-	b.WriteByte('"')
-	return b.String()
-}
-
-func quoteList(xs []string) string {
-	q := make([]string, len(xs))
-	for i, x := range xs {
-		q[i] = leanStr(x)
-	}
-	return strings.Join(q, ", ")
 }
 
 func envOr(k, d string) string {
